@@ -207,7 +207,7 @@ def collect_helpers(tree: ast.Module) -> Dict[Tuple[Optional[str], str], Helper]
             else:
                 return None
         a = fn.args
-        if a.vararg or a.kwarg or a.posonlyargs:
+        if a.kwarg or a.posonlyargs:
             return None
         if _count_stmts(fn) > MAX_STMTS:
             return None
@@ -245,19 +245,95 @@ def collect_helpers(tree: ast.Module) -> Dict[Tuple[Optional[str], str], Helper]
                     if not h.generator and not _returns_ok(_body_without_doc(b)):
                         continue
                     cands[("M", b.name)] = h
+                elif isinstance(b, ast.FunctionDef) and method_names.get(b.name, 0) > 1:
+                    # an override family (template method + hook overridden in a subclass): resolved through the class of
+                    # the calling method, see _match_call
+                    s = ok(b)
+                    if s is None or s:
+                        continue
+                    h = Helper(b, True, s, st.name)
+                    if h.generator or not _returns_ok(_body_without_doc(b)):
+                        continue
+                    cands[("C", st.name, b.name)] = h
     return cands
+
+
+def _module_classes(tree: ast.Module) -> Dict[str, ast.ClassDef]:
+    return {st.name: st for st in tree.body if isinstance(st, ast.ClassDef)}
+
+
+def _local_mro(classes: Dict[str, ast.ClassDef], name: str) -> List[str]:
+    """linearisation over the classes of this module (depth-first, first occurrence kept; single inheritance in practice)"""
+    out: List[str] = []
+
+    def go(n):
+        if n in out or n not in classes:
+            return
+        out.append(n)
+        for b in classes[n].bases:
+            if isinstance(b, ast.Name):
+                go(b.id)
+    go(name)
+    return out
+
+
+def _defines(cls: ast.ClassDef, name: str) -> bool:
+    return any(isinstance(b, ast.FunctionDef) and b.name == name for b in cls.body)
+
+
+def specialise_templates(tree: ast.Module) -> int:
+    """Template methods: a method M of a base class B that calls `self._hook()` where a subclass D of the same module
+    overrides the private hook, and D inherits M.  D gets its own copy of M (analysis copy only), so that every
+    `self._hook()` can be resolved statically through the class that contains the calling method."""
+    classes = _module_classes(tree)
+    n = 0
+    for dname, D in classes.items():
+        mro = _local_mro(classes, dname)
+        for k, bname in enumerate(mro[1:], start=1):
+            B = classes[bname]
+            for M in list(B.body):
+                if not isinstance(M, ast.FunctionDef) or (M.name.startswith("__") and M.name.endswith("__")):
+                    continue
+                if any(_defines(classes[c], M.name) for c in mro[:k]):
+                    continue            # overridden on the way down
+                if not M.args.args or any(isinstance(d, ast.Name) and d.id in ("staticmethod", "classmethod") for d in M.decorator_list):
+                    continue
+                selfn = M.args.args[0].arg
+                hooks = {x.func.attr for x in ast.walk(M) if isinstance(x, ast.Call) and isinstance(x.func, ast.Attribute)
+                         and isinstance(x.func.value, ast.Name) and x.func.value.id == selfn and x.func.attr.startswith("_")
+                         and not x.func.attr.startswith("__") and x.func.attr not in HOOKS}
+                differs = False
+                for h in hooks:
+                    where_d = next((c for c in mro if _defines(classes[c], h)), None)
+                    where_b = next((c for c in mro[k:] if _defines(classes[c], h)), None)
+                    if where_d is not None and where_d != where_b:
+                        differs = True
+                if differs:
+                    cp = copy.deepcopy(M)
+                    cp._pmlint_specialised = True      # type: ignore[attr-defined]
+                    D.body.append(cp)
+                    n += 1
+    return n
 
 
 class _Ctx:
     def __init__(self):
         self.k = 0
+        self.owner = ""
+        self.log: List[Tuple[str, str]] = []       # (caller function, helper) for every call that was inlined
 
 
 _CALLABLE_LOCALS: Set[str] = set()
+_CUR: Dict[str, object] = {"cls": None, "mro": [], "classes": {}, "fn": "", "src": ""}
+
+
+def _star_only(c: ast.Call) -> bool:
+    """h(*t) with t a plain name and nothing else: the positional parameters are t[0], t[1], ..."""
+    return len(c.args) == 1 and isinstance(c.args[0], ast.Starred) and isinstance(c.args[0].value, ast.Name) and not c.keywords
 
 
 def _match_call(c: ast.Call, helpers, self_name: Optional[str], module_funcs: Set[str]) -> Optional[Tuple[Helper, Optional[ast.AST]]]:
-    if any(isinstance(a, ast.Starred) for a in c.args) or any(k.arg is None for k in c.keywords):
+    if (any(isinstance(a, ast.Starred) for a in c.args) and not _star_only(c)) or any(k.arg is None for k in c.keywords):
         return None
     # higher-order use (a callback is handed in): the helper is a shared routine parameterised per call site, which the
     # rules analyse as a unit - never inlined
@@ -266,6 +342,17 @@ def _match_call(c: ast.Call, helpers, self_name: Optional[str], module_funcs: Se
             return None
     if isinstance(c.func, ast.Name) and (None, c.func.id) in helpers:
         return helpers[(None, c.func.id)], None
+    if isinstance(c.func, ast.Attribute) and isinstance(c.func.value, ast.Name) and c.func.value.id == self_name \
+            and ("M", c.func.attr) not in helpers and _CUR["cls"] is not None:
+        # hook of an override family: the definition the class of the calling method resolves to
+        for k_ in _CUR["mro"]:
+            if ("C", k_, c.func.attr) in helpers:
+                if f"super().{_CUR['fn']}(" in _CUR["src"]:
+                    return None        # the caller may run on behalf of a subclass (super().m()): dispatch not static
+                return helpers[("C", k_, c.func.attr)], c.func.value
+            if k_ in _CUR["classes"] and _defines(_CUR["classes"][k_], c.func.attr):
+                return None            # resolves to a definition that is not inlinable
+        return None
     if isinstance(c.func, ast.Attribute) and ("M", c.func.attr) in helpers:
         h = helpers[("M", c.func.attr)]
         recv = c.func.value
@@ -279,6 +366,7 @@ def _match_call(c: ast.Call, helpers, self_name: Optional[str], module_funcs: Se
 def _expand(c: ast.Call, h: Helper, recv: Optional[ast.AST], result: Optional[str], ctx: _Ctx, at: ast.AST) -> Optional[List[ast.stmt]]:
     fn = h.fn
     ctx.k += 1
+    ctx.log.append((ctx.owner, fn.name))
     tag = f"__{fn.name.strip('_')}{ctx.k}"
     params = [a.arg for a in fn.args.args]
     defaults = fn.args.defaults
@@ -290,9 +378,21 @@ def _expand(c: ast.Call, h: Helper, recv: Optional[ast.AST], result: Optional[st
         if not formal:
             return None
         self_param = formal.pop(0)
-    if len(c.args) > len(formal):
+    cargs = list(c.args)
+    vararg = fn.args.vararg.arg if fn.args.vararg else None
+    extra_args: List[ast.AST] = []
+    if vararg is not None:
+        if _star_only(c) or vararg in _bound_names(fn):
+            return None
+        extra_args, cargs = cargs[len(formal):], cargs[:len(formal)]
+    if _star_only(c):
+        if defaults or kwonly:
+            return None
+        cargs = [ast.copy_location(ast.Subscript(value=copy.deepcopy(c.args[0].value), slice=ast.Constant(value=k_), ctx=ast.Load()), c)
+                 for k_ in range(len(formal))]
+    if len(cargs) > len(formal):
         return None
-    for p, a in zip(formal, c.args):
+    for p, a in zip(formal, cargs):
         bind[p] = a
     for k in c.keywords:
         if k.arg in bind or (k.arg not in formal and k.arg not in kwonly):
@@ -325,6 +425,9 @@ def _expand(c: ast.Call, h: Helper, recv: Optional[ast.AST], result: Optional[st
             pre.append(ast.copy_location(st, at))
     if self_param is not None:
         ren[self_param] = recv if recv is not None else ast.Name(id=self_param, ctx=ast.Load())
+    if vararg is not None:
+        # *rest: the tuple of the remaining positional arguments, written out
+        ren[vararg] = ast.copy_location(ast.Tuple(elts=[copy.deepcopy(x) for x in extra_args], ctx=ast.Load()), at)
     for nme in bound:
         if nme not in ren:
             ren[nme] = nme + tag
@@ -404,7 +507,7 @@ def _expand_expr(c: ast.Call, h: Helper, recv: Optional[ast.AST], ctx: _Ctx) -> 
     argument expressions (possible when an argument is free of calls, or used at most once)."""
     fn = h.fn
     body = _body_without_doc(fn)
-    if len(body) != 1 or not isinstance(body[0], ast.Return) or body[0].value is None:
+    if len(body) != 1 or not isinstance(body[0], ast.Return) or body[0].value is None or _star_only(c) or fn.args.vararg:
         return None
     params = [a.arg for a in fn.args.args]
     formal = list(params)
@@ -448,6 +551,7 @@ def _expand_expr(c: ast.Call, h: Helper, recv: Optional[ast.AST], ctx: _Ctx) -> 
     if self_param is not None:
         ren[self_param] = recv if recv is not None else ast.Name(id=self_param, ctx=ast.Load())
     ctx.k += 1
+    ctx.log.append((ctx.owner, fn.name))
     tag = f"__{fn.name.strip('_')}{ctx.k}"
     for nme in bound:
         ren[nme] = nme + tag
@@ -505,6 +609,33 @@ def _inline_block(stmts: List[ast.stmt], helpers, self_name, mf, ctx: _Ctx, owne
                     out += fused
                     changed = True
                     continue
+        # a list comprehension whose element calls a multi-statement helper: spelled out as a loop, so that the helper
+        # can be expanded in the loop body      T = [E for x in it if c]  ->  T = []; for x' in it: if c: T.append(E)
+        if isinstance(st, ast.Assign) and len(st.targets) == 1 and isinstance(st.targets[0], ast.Name) and \
+                isinstance(st.value, ast.ListComp) and len(st.value.generators) == 1 and not st.value.generators[0].is_async:
+            hits0 = [h_ for h_ in _find_inline_calls(st, helpers, self_name, mf) if h_[1].fn.name != owner_name]
+            body_hits = [h_ for h_ in hits0 if h_[3] and any(x is h_[0] for x in ast.walk(st.value.elt))]
+            if body_hits and any(_expand_expr(copy.deepcopy(h_[0]), h_[1], h_[2], _Ctx()) is None for h_ in body_hits):
+                g = st.value.generators[0]
+                ctx.k += 1
+                tag = f"__lc{ctx.k}"
+                ren = {x.id: x.id + tag for x in ast.walk(g.target) if isinstance(x, ast.Name)}
+                rn = _Rename(ren)
+                tname = st.targets[0].id
+                app = ast.Expr(value=ast.Call(func=ast.Attribute(value=ast.Name(id=tname, ctx=ast.Load()), attr="append", ctx=ast.Load()),
+                                              args=[rn.visit(copy.deepcopy(st.value.elt))], keywords=[]))
+                inner: List[ast.stmt] = [app]
+                for cond in reversed(g.ifs):
+                    inner = [ast.If(test=rn.visit(copy.deepcopy(cond)), body=inner, orelse=[])]
+                loop = ast.For(target=rn.visit(copy.deepcopy(g.target)), iter=copy.deepcopy(g.iter), body=inner, orelse=[])
+                init = ast.Assign(targets=[ast.Name(id=tname, ctx=ast.Store())], value=ast.List(elts=[], ctx=ast.Load()))
+                for x_ in (init, loop):
+                    ast.copy_location(x_, st)
+                    ast.fix_missing_locations(x_)
+                new_l, _ch = _inline_block([loop], helpers, self_name, mf, ctx, owner_name)
+                out += [init] + new_l
+                changed = True
+                continue
         for _round in range(12):
             hits = [h_ for h_ in _find_inline_calls(st, helpers, self_name, mf) if h_[1].fn.name != owner_name]
             if not hits:
@@ -562,12 +693,13 @@ def _inline_block(stmts: List[ast.stmt], helpers, self_name, mf, ctx: _Ctx, owne
 
 def _fuse_generator(loop: ast.For, h: Helper, recv, ctx: _Ctx) -> Optional[List[ast.stmt]]:
     sg = _simple_generator(h)
-    if sg is None or loop.orelse:
+    if sg is None or loop.orelse or h.fn.args.vararg:
         return None
     setup, glp, yielded = sg
     fn = h.fn
     c = loop.iter
     ctx.k += 1
+    ctx.log.append((ctx.owner, fn.name))
     tag = f"__{fn.name.strip('_')}{ctx.k}"
     formal = [a.arg for a in fn.args.args]
     self_param = None
@@ -619,6 +751,10 @@ def inline_helpers(tree: ast.Module, passes: int = 3) -> int:
     """Inline eligible private helpers of this module into their callers (in place); returns the number of passes that
     changed something."""
     n_changed = 0
+    tree._pmlint_inlined = []       # type: ignore[attr-defined]
+    specialise_templates(tree)
+    _CUR["classes"] = _module_classes(tree)
+    _CUR["src"] = ast.unparse(tree)
     for _ in range(passes):
         helpers = collect_helpers(tree)
         if not helpers:
@@ -630,6 +766,7 @@ def inline_helpers(tree: ast.Module, passes: int = 3) -> int:
 
         def do_fn(fn: ast.FunctionDef):
             nonlocal changed_any
+            ctx.owner = fn.name
             ctx.k = n_changed * 100          # tags count per caller: two callers inlining the same helper get equal names
             _CALLABLE_LOCALS.clear()
             for x in ast.walk(fn):
@@ -647,11 +784,15 @@ def inline_helpers(tree: ast.Module, passes: int = 3) -> int:
                 changed_any = True
         for st in tree.body:
             if isinstance(st, ast.FunctionDef):
+                _CUR["cls"], _CUR["mro"], _CUR["fn"] = None, [], st.name
                 do_fn(st)
             elif isinstance(st, ast.ClassDef):
                 for b in st.body:
                     if isinstance(b, ast.FunctionDef):
+                        _CUR["cls"], _CUR["mro"], _CUR["fn"] = st.name, _local_mro(_CUR["classes"], st.name), b.name
                         do_fn(b)
+        _CUR["cls"] = None
+        tree._pmlint_inlined += ctx.log      # type: ignore[attr-defined]
         if not changed_any:
             break
         n_changed += 1
